@@ -13,11 +13,11 @@ import (
 // buf names the entry atoms of a *Buffer[T] parameter (or receiver).
 type buf struct{ name string }
 
-func (b buf) lenT() *Term   { return mkAtom("len("+b.name+".data)", intT) }
-func (b buf) capT() *Term   { return mkAtom("cap("+b.name+".data)", intT) }
-func (b buf) ch() *Term     { return mkAtom(b.name+".channels", intT) }
-func (b buf) depth() *Term  { return mkAtom(b.name+".bitDepth", intT) }
-func (b buf) stor() string  { return b.name + ".data" }
+func (b buf) lenT() *Term   { return mkAtom("len("+b.name+hdrLayout.dataSuffix()+")", intT) }
+func (b buf) capT() *Term   { return mkAtom("cap("+b.name+hdrLayout.dataSuffix()+")", intT) }
+func (b buf) ch() *Term     { return mkAtom(b.name+hdrLayout.chSuffix(), intT) }
+func (b buf) depth() *Term  { return mkAtom(b.name+hdrLayout.depthSuffix(), intT) }
+func (b buf) stor() string  { return b.name + hdrLayout.dataSuffix() }
 func (b buf) obj() string   { return "*" + b.name }
 func (b buf) length() *Term { return specLength(b.lenT(), b.ch()) }
 
@@ -455,15 +455,22 @@ func withZeroAtoms(f *Facts) *Facts {
 var shapeQuantified = map[string]bool{"C01": true, "C02": true, "C03": true, "C04": true, "C05": true, "C13": true, "C14": true, "C15": true, "C20": true}
 
 func checkI0(c *Checker, rule string) {
-	// the one value-changing conversion confirmed by hand is BitDepth(unsafe.Sizeof(v)*8) in getBitDepth (reached from
-	// Alloc): it is the positive control wherever Alloc is in scope
-	floor := 0
-	if fn := c.W.Fn("Alloc"); fn != nil {
-		if _, ok := c.sums[fn]; ok || shapeQuantified[c.Prop] {
-			floor = 1
-		}
-	}
+	floor := 1 // the positive control below
 	c.rule(rule, "premise of the shape arithmetic: every integer->integer conversion outside the sample kernels either cannot change the value (same width and signedness, or widening) or has an operand implied to lie in the target type's range", floor)
+	// positive control: the generated function verifControlNarrow(x int) uint16 { return uint16(x) } must be refuted
+	if cf := c.W.Fn("verifControlNarrow"); cf == nil {
+		c.undecided(rule, "control/verifControlNarrow", "", "positive control function not found in the loaded package")
+	} else {
+		fired := false
+		for _, o := range c.W.Interp.runQuiet(cf, nil).Outcomes {
+			for _, e := range effectsOf(o, ENarrow) {
+				if ok, _, _ := narrowInRange(e); !ok {
+					fired = true
+				}
+			}
+		}
+		c.expect(fired, rule, "control/verifControlNarrow", "", "the rule refutes uint16(x) for an unconstrained int x", "positive control did not fire: uint16(x) of an unconstrained int was not reported")
+	}
 	kern := map[string]bool{}
 	for _, n := range conversionNames {
 		kern[n] = true
@@ -520,24 +527,11 @@ func checkI0(c *Checker, rule string) {
 					continue
 				}
 				nSites++
-				to := kindOf(e.Typ)
-				lo, hi := to.minMax()
-				f := e.Facts.clone()
-				// sizes of the element types
-				e.Idx.walk(func(x *Term) bool {
-					if x.Op == OpAtom && strings.HasPrefix(x.Name, "sizeof(") {
-						f.add(Cond{Kind: CGE0, P: polyAtom(x).AddInt(-1)})
-						f.add(Cond{Kind: CGE0, P: polyConst(big.NewInt(16)).Sub(polyAtom(x))})
-					}
-					return true
-				})
-				p := normInt(e.Idx)
-				inRange := f.impliesGE0(p.Sub(polyConst(lo))) && f.impliesGE0(polyConst(hi).Sub(p))
-				if !inRange {
-					// linear in element sizes (1..16 bytes): evaluate the extremes
-					if mn, mx, ok := sizeofRange(p); ok && mn.Cmp(lo) >= 0 && mx.Cmp(hi) <= 0 {
-						inRange = true
-					}
+				inRange, lo, hi := narrowInRange(e)
+				if strings.HasPrefix(e.Note, "reinterpreting") {
+					seen[inst] = true
+					c.proved(rule, inst, c.effPos(e), "kept as an opaque unsigned value that is only compared (not erased by the shape arithmetic)")
+					continue
 				}
 				if inRange {
 					seen[inst] = true
@@ -577,4 +571,137 @@ func sizeofRange(p *Poly) (*big.Int, *big.Int, bool) {
 		}
 	}
 	return mn, mx, true
+}
+
+// narrowInRange: is the operand of a value-changing integer conversion implied to lie in the target type's range?
+// The operand's own type bounds count (an int converted to uint64 only needs to be non-negative).
+func narrowInRange(e *Effect) (bool, *big.Int, *big.Int) {
+	to := kindOf(e.Typ)
+	lo, hi := to.minMax()
+	from := kindOf(e.Idx.Typ)
+	f := e.Facts.clone()
+	p := normInt(e.Idx)
+	if from.OK {
+		flo, fhi := from.minMax()
+		f.add(Cond{Kind: CGE0, P: p.Sub(polyConst(flo))})
+		f.add(Cond{Kind: CGE0, P: polyConst(fhi).Sub(p)})
+	}
+	// len/cap of slices and element sizes
+	e.Idx.walk(func(x *Term) bool {
+		if x.Op == OpAtom && strings.HasPrefix(x.Name, "sizeof(") {
+			f.add(Cond{Kind: CGE0, P: polyAtom(x).AddInt(-1)})
+			f.add(Cond{Kind: CGE0, P: polyConst(big.NewInt(16)).Sub(polyAtom(x))})
+		}
+		if x.Op == OpAtom && (strings.HasPrefix(x.Name, "len(") || strings.HasPrefix(x.Name, "cap(")) {
+			f.add(Cond{Kind: CGE0, P: polyAtom(x)})
+		}
+		return true
+	})
+	inRange := f.impliesGE0(p.Sub(polyConst(lo))) && f.impliesGE0(polyConst(hi).Sub(p))
+	if !inRange {
+		// linear in element sizes (1..16 bytes): evaluate the extremes
+		if mn, mx, ok := sizeofRange(p); ok && mn.Cmp(lo) >= 0 && mx.Cmp(hi) <= 0 {
+			inRange = true
+		}
+	}
+	return inRange, lo, hi
+}
+
+// headerLayout: where a Buffer header keeps its samples, channel count and bit depth. The names are discovered per
+// loaded tree (loader.go: probes b.Channels(), b.BitDepth() and the one slice-typed field), so that moving the
+// properties into an embedded struct or renaming a field does not change what the rules talk about.
+type headerLayout struct {
+	data, ch, depth []string // field-name paths from the Buffer struct
+}
+
+var hdrLayout = &headerLayout{data: []string{"data"}, ch: []string{"channels"}, depth: []string{"bitDepth"}}
+
+func (h *headerLayout) dataSuffix() string  { return "." + strings.Join(h.data, ".") }
+func (h *headerLayout) chSuffix() string    { return "." + strings.Join(h.ch, ".") }
+func (h *headerLayout) depthSuffix() string { return "." + strings.Join(h.depth, ".") }
+
+// indexPath resolves a field-name path inside a struct type (through nested structs).
+func indexPath(t types.Type, names []string) []int {
+	var out []int
+	for _, n := range names {
+		st, ok := t.Underlying().(*types.Struct)
+		if !ok {
+			return nil
+		}
+		found := false
+		for i := 0; i < st.NumFields(); i++ {
+			if st.Field(i).Name() == n {
+				out = append(out, i)
+				t = st.Field(i).Type()
+				found = true
+				break
+			}
+		}
+		if !found {
+			return nil
+		}
+	}
+	return out
+}
+
+// slicePath finds the unique slice-typed field of a struct (searching embedded structs), as a name path.
+func slicePath(t types.Type) []string {
+	st, ok := t.Underlying().(*types.Struct)
+	if !ok {
+		return nil
+	}
+	var found []string
+	n := 0
+	for i := 0; i < st.NumFields(); i++ {
+		f := st.Field(i)
+		if _, isS := f.Type().Underlying().(*types.Slice); isS {
+			found = []string{f.Name()}
+			n++
+		} else if _, isSt := f.Type().Underlying().(*types.Struct); isSt {
+			if sub := slicePath(f.Type()); sub != nil {
+				found = append([]string{f.Name()}, sub...)
+				n++
+			}
+		}
+	}
+	if n != 1 {
+		return nil
+	}
+	return found
+}
+
+func pathEq(a, b []int) bool {
+	if len(a) != len(b) {
+		return false
+	}
+	for i := range a {
+		if a[i] != b[i] {
+			return false
+		}
+	}
+	return true
+}
+
+// pathTouches: a store at path a writes (part of, or all of, or a struct containing) the field at path b.
+func pathTouches(a, b []int) bool {
+	n := len(a)
+	if len(b) < n {
+		n = len(b)
+	}
+	if n == 0 {
+		return true
+	}
+	return pathEq(a[:n], b[:n])
+}
+
+// at returns the value of the field at the path inside a header value.
+func (f *bufFields) at(v Val, path []int) Val {
+	for _, i := range path {
+		sv, ok := v.(StructV)
+		if !ok || i < 0 || i >= len(sv.F) {
+			return nil
+		}
+		v = sv.F[i]
+	}
+	return v
 }
